@@ -182,8 +182,8 @@ def effEsc (esc : Bytes → Bytes) (legacy : Bool) : Bytes → Bytes := if legac
 def extraLabels (esc : Bytes → Bytes) (sc : Scenario) (s : Scope) (obs : List KV) : Option (List KV) :=
   -- returns the observed labels minus the extras, or none if an extra label is missing/wrong
   let scopeL : List KV := if sc.noScope then [] else [(scopeNameLabel, s.name), (scopeVersionLabel, s.version)]
-  let resKeys : List Bytes := if sc.resConst then (sc.res.map (fun kv => effEsc esc sc.cfg.legacy kv.1)).eraseDups else []
-  let resOK := resKeys.all (fun k => (obs.lookup k) == mergedValue (effEsc esc sc.cfg.legacy) sc.res k)
+  let resKeys : List Bytes := if sc.resConst then ((constRes sc).map (fun kv => effEsc esc sc.cfg.legacy kv.1)).eraseDups else []
+  let resOK := resKeys.all (fun k => (obs.lookup k) == mergedValue (effEsc esc sc.cfg.legacy) (constRes sc) k)
   let scopeOK := scopeL.all (fun kv => obs.lookup kv.1 == some kv.2)
   if resOK && scopeOK then
     some (obs.filter (fun kv => !(scopeL.map (·.1)).contains kv.1 && !resKeys.contains kv.1))
@@ -197,9 +197,10 @@ def seriesMatches (esc : Bytes → Bytes) (sc : Scenario) (s : Scope) (attrs : L
 /-- the labels Collect appends to every series of a scope: scope name/version unless WithoutScopeInfo, then the resource
 attributes when WithResourceAsConstantLabels is set -/
 def extraKVs (esc : Bytes → Bytes) (sc : Scenario) (s : Scope) : List KV :=
-  scopeExtra sc (if sc.resConst then getAttrs esc sc.cfg.legacy sc.res else []) s
+  scopeExtra sc (if sc.resConst then getAttrs esc sc.cfg.legacy (constRes sc) else []) s
 
-def extraKeys (esc : Bytes → Bytes) (sc : Scenario) : List Bytes := (extraKVs esc sc ⟨[], [], []⟩).map (·.1)
+def extraKeys (esc : Bytes → Bytes) (sc : Scenario) : List Bytes :=
+  (extraKVs esc sc { name := [], version := [], insts := [] }).map (·.1)
 
 /-- "valid attribute set" for a series: every (sanitised) key is a label name the registry admits and none collides with
 the labels the exporter adds itself; in the UTF-8 scheme keys are unique (attribute.Set invariant); every value is valid
@@ -223,9 +224,33 @@ def instValid (esc : Bytes → Bytes) (sc : Scenario) (i : Inst) : Bool :=
    n != b "target_info" && n != b "otel_scope_info") &&
   i.points.all (fun p => labelsAdmissible esc sc.cfg.legacy p.attrs (extraKeys esc sc))
 
+/-- the attributes the otel_scope_info series of a scope stands for, written without attribute.NewSet: the scope's own
+attributes except those named like the two scope labels (which the scope's name and version replace), then name and
+version -/
+def scopeInfoRef (s : Scope) : List KV :=
+  s.attrs.filter (fun kv => kv.1 != scopeNameLabel && kv.1 != scopeVersionLabel) ++
+    [(scopeNameLabel, s.name), (scopeVersionLabel, s.version)]
+
 def resValid (esc : Bytes → Bytes) (sc : Scenario) : Bool :=
   sc.res.all (fun kv => labelNameOK sc.cfg.legacy (effEsc esc sc.cfg.legacy kv.1) && Utf8.validString kv.2) &&
   sc.scopes.all (fun s => Utf8.validString s.name && Utf8.validString s.version)
+
+/-- can the scope be exposed? With scope info enabled a scope needs an otel_scope_info series, i.e. scope attributes
+whose (sanitised) keys are label names the registry admits and whose values are valid UTF-8; a scope without that is not
+exposed at all — neither its info series nor its instruments — and must not disturb any other scope. Without scope info
+the scope attributes play no role. -/
+def scopeExposable (esc : Bytes → Bytes) (sc : Scenario) (s : Scope) : Bool :=
+  sc.noScope || (nodupKeys (s.attrs.map (·.1)) &&
+    s.attrs.all (fun kv => labelNameOK sc.cfg.legacy (effEsc esc sc.cfg.legacy kv.1) && Utf8.validString kv.2))
+
+/-- the scenario restricted to the scopes that can be exposed -/
+def exposable (esc : Bytes → Bytes) (sc : Scenario) : Scenario :=
+  { sc with scopes := sc.scopes.filter (scopeExposable esc sc) }
+
+/-- scope identities are pairwise distinct (the SDK keys its meters by the whole instrumentation.Scope) -/
+def scopesDistinct : List Scope → Bool
+  | [] => true
+  | s :: r => r.all (fun t => decide (t.key ≠ s.key)) && scopesDistinct r
 
 def allInsts (sc : Scenario) : List (Scope × Inst) := sc.scopes.flatMap (fun s => s.insts.map (fun i => (s, i)))
 
@@ -240,7 +265,7 @@ def dupSeries (esc : Bytes → Bytes) (sc : Scenario) : Bool := !distinctSeries 
 
 def scenarioValid (esc : Bytes → Bytes) (sc : Scenario) : Bool :=
   (allInsts sc).all (fun si => instValid esc sc si.2) && resValid esc sc && !dupSeries esc sc &&
-  nodupKeys (sc.scopes.map (fun s => s.name ++ [0] ++ s.version))
+  scopesDistinct sc.scopes
 
 def isInfo (n : Bytes) : Bool := n == b "target_info" || n == b "otel_scope_info"
 
@@ -303,14 +328,14 @@ def infoOK (esc : Bytes → Bytes) (sc : Scenario) (fams : List Family) : Bool :
       g.series.length == sc.scopes.length &&
       sc.scopes.all (fun s => g.series.any (fun t =>
         t.payload == OutPayload.num 4 &&
-        sortKV t.labels == sortKV [(scopeNameLabel, s.name), (scopeVersionLabel, s.version)])))
+        labelsMerged (effEsc esc sc.cfg.legacy) (scopeInfoRef s) t.labels)))
 
 def namesLegal (legacy : Bool) (fams : List Family) : Bool :=
   fams.all (fun g => metricNameOK legacy g.name &&
     g.series.all (fun t => t.labels.all (fun kv => labelNameOK legacy kv.1) && nodupKeys (t.labels.map (·.1))))
 
-/-- the oracle for one scrape: "ok" | "FAIL" | "KNOWN:F28" | "na" -/
-def promOK (esc : Bytes → Bytes) (sc : Scenario) (o : Obs) : String :=
+/-- the oracle for one scrape whose scopes can all be exposed: "ok" | "FAIL" | "KNOWN:F28" | "na" -/
+def promOKx (esc : Bytes → Bytes) (sc : Scenario) (o : Obs) : String :=
   if o.panic then "FAIL"
   else if !scenarioValid esc sc then "na"
   else if o.gerr then "FAIL"
@@ -322,5 +347,8 @@ def promOK (esc : Bytes → Bytes) (sc : Scenario) (o : Obs) : String :=
     if !ok || total != present then "FAIL"
     else if missed > 0 then "KNOWN:F28"
     else "ok"
+
+/-- the oracle for one scrape: exactly the exposable scopes are exposed (completely, `promOKx`), the others not at all -/
+def promOK (esc : Bytes → Bytes) (sc : Scenario) (o : Obs) : String := promOKx esc (exposable esc sc) o
 
 end Otel.C18.Spec
